@@ -436,13 +436,42 @@ def handler_alphabets():
     return A
 
 
+def _abbrevs(modname, table="LONG_OPTIONS"):
+    """every long option of the handler's table abbreviated to 1, 2, 3 characters and all but the last one"""
+    out = []
+    for n in _mod_flags(modname, table):
+        for k in (1, 2, 3, len(n) - 1):
+            if 0 < k < len(n):
+                out.append("--" + n[:k])
+    return _uniq(out)
+
+
+def _letters(modname, *tables):
+    """a LONG-looking word ending in each short letter the handler gives an argument to (near miss of a cluster)"""
+    out = []
+    for f in _mod_flags(modname, *tables):
+        if len(f) == 2 and f[0] == "-" and f[1] != "-":
+            out.append("--z" + f[1])
+    return _uniq(out)[:6]
+
+
 def handler_token_lists(tier):
-    """head + token lists:  every token of the full alphabet alone, before and after every token of a small core
-    (thorough: full^2 and every position of a 3-list), and the core alphabet exhaustively up to 3 (thorough: 4)."""
+    """head + token lists:  every token of the full alphabet alone, before and after every token of a small `near`
+    set (three of the handler's own flags + an approved and a denied inner command; thorough: full^2 and every
+    position of a 3-list), and the core alphabet exhaustively up to 3 (thorough: 4)."""
     quick = tier == "quick"
+    extra = {
+        ("env",): _abbrevs("env") + _letters("env", "SHORT_WITH_ARG", "FLAGS_WITH_ARG"),
+        ("xargs",): _abbrevs("xargs") + _letters("xargs", "FLAGS_WITH_ARG") + ["--zi", "--zl"],
+        ("docker", "exec"): _letters("docker", "EXEC_SHORT_WITH_ARG", "EXEC_FLAGS_WITH_ARG") + ["--en", "--us", "--detach"],
+        ("docker",): _letters("docker", "GLOBAL_FLAGS_WITH_ARG") + ["--lo", "--conf"],
+        ("kubectl", "exec"): ["--zc", "--zn", "--st", "--tt", "--names", "--contain"],
+        ("sh",): ["--zc", "--rc", "--no", "-zc"],
+    }
     for head, (full, core) in handler_alphabets().items():
-        full, core = _uniq(full), _uniq(core)
-        near = core[:5]
+        full, core = _uniq(full + extra.get(head, [])), _uniq(core)
+        cmds = [t for t in core if t in ("ls", "rm", "zap", "rm x", "ls; zap")][-2:]
+        near = _uniq(core[:3] + cmds + ["ls"])
         seen = set()
 
         def emit(t):
@@ -454,6 +483,9 @@ def handler_token_lists(tier):
         for f in full:
             for a in (near if quick else full):
                 lists += [[f, a], [a, f]]
+            for a in near[:3]:
+                for b in near[3:]:
+                    lists += [[f, a, b], [a, f, b]]
             if not quick:
                 for a in near:
                     for b in near:
